@@ -838,7 +838,7 @@ class Folder:
         if name == "isinstance" and len(args) == 2:
             v = self.fold(args[0])
             kn = [dotted(k) for k in (args[1].elts if isinstance(args[1], ast.Tuple) else [args[1]])]
-            pyk = {"bytes": bytes, "bytearray": bytearray, "int": int, "bool": bool, "str": str, "float": float, "fractions.Fraction": Fraction, "Fraction": Fraction, "set": (set, frozenset), "frozenset": frozenset, "list": list, "tuple": tuple, "dict": dict}
+            pyk = {"bytes": bytes, "bytearray": bytearray, "int": int, "bool": bool, "str": str, "float": float, "complex": complex, "fractions.Fraction": Fraction, "Fraction": Fraction, "set": (set, frozenset), "frozenset": frozenset, "list": list, "tuple": tuple, "dict": dict}
             if all(k in pyk for k in kn) and not isinstance(v, Sym) and not isinstance(getattr(v, "_isa_", None), (set, frozenset)):
                 return any(isinstance(v, pyk[k]) for k in kn)  # type: ignore
             if not isinstance(v, Abstract) and (v is None or isinstance(v, (int, str, float, bool, Fraction, list, tuple, dict, set, frozenset, bytes))):
@@ -878,6 +878,14 @@ class Folder:
             return fv.call(self, [self.fold(a) for a in args], {k.arg: self.fold(k.value) for k in e.keywords if k.arg})
         if type(fv).__name__ == "AObj":
             return call_value(self, fv, [self.fold(a) for a in args], {k.arg: self.fold(k.value) for k in e.keywords if k.arg})
+        if fv is not None and getattr(fv, "__module__", None) == "_operator" and callable(fv):
+            # a function of the `operator` module that reached this name as a value (e.g. an `impl` parameter)
+            try:
+                return fv(*[self.fold(a) for a in args])
+            except (ZeroDivisionError, OverflowError, TypeError) as ex:
+                from .absint import Raised
+
+                raise Raised(type(ex).__name__, e)  # what the operator raises in the evaluated program
         if isinstance(fv, Abstract) and callable(fv):
             return fv(*[self.fold(a) for a in args], **{k.arg: self.fold(k.value) for k in e.keywords if k.arg})
         if self.repo is not None and self.mod is not None and isinstance(e.func, (ast.Name, ast.Attribute)):
